@@ -321,6 +321,11 @@ def r6_labels_survive_delegation(ctx):
                             bad.append(x)
                         elif isinstance(x, ast.Attribute) and x.attr == "values" and not isinstance(parent(x), ast.Call):
                             bad.append(x)
+                        elif isinstance(x, ast.Call) and callee_last(x) in ("Series", "DataFrame") and x.args and kw(x, "index") is None \
+                                and any(isinstance(y, ast.Attribute) and y.attr == "index" for y in ast.walk(x.args[0])) \
+                                and not isinstance(x.args[0], ast.Dict):
+                            # pd.Series(obj.index): the labels become the values, the new index is 0..n-1
+                            bad.append(x)
                 ctx.ob("R6", f0, f"{f0.short}: the object handed to the delegated validation keeps the labels of the working object", not bad,
                        f"`{txt(data)[:60]}` preserves the index" if not bad else
                        f"`{txt(data)[:80]}` replaces the labels by positions (`{txt(bad[0])[-40:]}`): failure cases of index checks then name positions, and "
